@@ -20,7 +20,8 @@ RULE = (
     'error mode between constructing and using a parser; explicit configuration steps (preference assignment, addProfile, '
     'defaultProfiles, global error mode) are part of the configuration, not of the hidden state. Each example runs twice in '
     'forked children: full history + probe battery versus only the configuration steps + probe battery; the battery '
-    '(parse+serialise of 14 reference texts, validity flags, parseStyle, one DOM edit that must raise and one that must '
+    '(parse+serialise of 14 reference texts, validity flags, 17 malformed texts through a raising parser with exception type, '
+    'message, line and column as the result, parseStyle, one DOM edit that must raise and one that must '
     'succeed) must give identical results. Around every parse call the error mode, serializer object and preferences, '
     'profile list and default profiles must be as before, whether it returned or raised; a reused parser must repeat its '
     'result. Non-trivial: the history contains a call that ended in an exception, followed by the probe; distinct by history.'
@@ -248,7 +249,15 @@ def battery():
                     flags.append(tuple((p.name, p.valid) for p in r.style.getProperties(all=True)))
             out.append((s.cssText, tuple(flags), s.valid if hasattr(s, 'valid') else None))
         except Exception as e:  # noqa: BLE001
-            out.append(('EXC', type(e).__name__, str(e)[:200]))
+            out.append(('EXC', type(e).__name__, str(e)[:200], getattr(e, 'line', None), getattr(e, 'col', None)))
+    # a raising parser: the exception (type, message, position) is the result of the call
+    # texts whose rejection carries no position come first: nothing in this battery has set one yet
+    for t in [', { top: 0 }', 'a { x: y ! }', '@media { a { top: 0 } }', 'a|b { top: 0 }'] + MALFORMED:
+        try:
+            cssutils.CSSParser(raiseExceptions=True, fetcher=lambda u: (None, '')).parseString(t)
+            out.append(('accepted', t))
+        except Exception as e:  # noqa: BLE001
+            out.append(('EXC', type(e).__name__, str(e)[:200], getattr(e, 'line', None), getattr(e, 'col', None)))
     try:
         out.append(cssutils.parseStyle('color: red; top: 1px !important; x: (').cssText)
     except Exception as e:  # noqa: BLE001
